@@ -257,7 +257,7 @@ func RunPlan(run *ev.Run, plan Plan, replay string) {
 			w = 16
 		}
 		res, err := tlc.Run(tlc.Options{SpecDir: specDir(), Module: "GluonCore", Cfg: filepath.Join(specDir(), "cfg", e.File),
-			Workers: w, Timeout: e.Timeout, KeepOutput: true, HeapGB: 12})
+			Workers: w, Timeout: e.Timeout, KeepOutput: true, HeapGB: 8})
 		if err != nil {
 			run.Machinery("tlc %s: %v", e.File, err)
 			return
@@ -339,7 +339,7 @@ func PrepareAlls(alls []AllCfg, dir string) error {
 		}
 		n := 0
 		res, err := tlc.Run(tlc.Options{SpecDir: specDir(), Module: "GluonCore", Cfg: filepath.Join(specDir(), "cfg", ac.File),
-			Workers: 8, Timeout: to, KeepOutput: true, HeapGB: 16,
+			Workers: 8, Timeout: to, KeepOutput: true, HeapGB: 8,
 			OnJSON: func(raw []byte) {
 				n++
 				_, _ = f.Write(raw)
